@@ -1,5 +1,5 @@
 (* Props/C08.v — the theorems that decide property C08.  Statements only. *)
-From CKB Require Import Chain.ForkChoice Chain.ForkChoiceProofs Chain.Crash Chain.CrashProofs Chain.ForkChoiceExamples.
+From CKB Require Import Chain.ForkChoice Chain.ForkChoiceProofs Chain.Crash Chain.CrashProofs Chain.ForkChoiceExamples Chain.Recover Chain.RecoverProofs.
 Local Open Scope N_scope.
 
 (* Any number of crashes at any points of any delivery history: once every
@@ -40,6 +40,38 @@ Theorem c08_example :
   ftip_td (dcore (crun (d0 100) ops)) = 140.
 Proof. exact ex_crash. Qed.
 
+Local Open Scope nat_scope.
+(* The start-up scan (InitLoadUnverified): a stored-but-unverified block is
+   submitted again when every height from the start of the scan up to its own
+   that lies above the tip holds some stored-but-unverified block — in
+   particular every such block at or below the tip's height, and every run of
+   them directly above the tip — and nothing else is submitted. *)
+Theorem c08_scan_reaches : forall unv tip start fin h x,
+  start <= h <= fin -> In x (unv h) ->
+  (forall m, start <= m <= h -> tip < m -> unv m <> []) ->
+  In x (scan unv tip start fin).
+Proof. exact scan_reaches. Qed.
+
+Theorem c08_scan_reaches_up_to_tip : forall unv tip start fin h x,
+  start <= h <= fin -> h <= tip -> In x (unv h) -> In x (scan unv tip start fin).
+Proof. exact scan_reaches_up_to_tip. Qed.
+
+Theorem c08_scan_only_unverified : forall unv tip start fin x,
+  In x (scan unv tip start fin) -> exists h, start <= h <= fin /\ In x (unv h).
+Proof. exact scan_only_unverified. Qed.
+
+(* "stored but not yet verified blocks are picked up" is false as stated: behind a
+   height above the tip that holds only processed blocks the scan stops (known
+   finding C08-recovery-stops-at-first-empty-height-above-tip) *)
+Theorem c08_scan_gap_refuted : forall fin,
+  let unv := fun h => if Nat.eqb h 7 then [77%N] else [] in
+  In 77%N (unv 7) /\ ~ In 77%N (scan unv 5 1 fin).
+Proof. exact scan_gap_refuted. Qed.
+
 Redirect "out/C08.c08_converges" Print Assumptions c08_converges.
 Redirect "out/C08.c08_restart_state_consistent" Print Assumptions c08_restart_state_consistent.
 Redirect "out/C08.c08_example" Print Assumptions c08_example.
+Redirect "out/C08.c08_scan_reaches" Print Assumptions c08_scan_reaches.
+Redirect "out/C08.c08_scan_reaches_up_to_tip" Print Assumptions c08_scan_reaches_up_to_tip.
+Redirect "out/C08.c08_scan_only_unverified" Print Assumptions c08_scan_only_unverified.
+Redirect "out/C08.c08_scan_gap_refuted" Print Assumptions c08_scan_gap_refuted.
